@@ -8,11 +8,22 @@
 (*    body = sequence of statements                                        *)
 (*    stmt = [k |-> "s", v |-> var]      scalar use    v = v "x"; print    *)
 (*           [k |-> "a", v |-> var]      array use     v[length(v)] = 1    *)
-(*           [k |-> "len", v |-> var]    length(v)     (no type evidence)  *)
+(*           [k |-> "len", v |-> arg]    length(arg)                       *)
 (*           [k |-> "call", f |-> g, args |-> <<arg, ...>>]                *)
-(*    var  = [sc |-> "L", i |-> parameter number]  (inside a function)     *)
-(*           [sc |-> "G", i |-> global number]                             *)
-(*    arg  = var  or  [sc |-> "C", i |-> 0]  (a constant: not a variable)  *)
+(*    var  = [sc |-> "L", i |-> parameter number, fm |-> "v"]              *)
+(*           [sc |-> "G", i |-> global number, fm |-> "v"]                 *)
+(*    arg  = [sc |-> "L" or "G", i |-> number, fm |-> FORM]  or            *)
+(*           [sc |-> "C", i |-> 0, fm |-> "v"]  (a constant: no variable)  *)
+(*    FORM = "v"  the bare variable            x                           *)
+(*           "p"  the parenthesised variable   (x)                         *)
+(*           "e"  an expression over it        x ""                        *)
+(*           "x"  an element of it             x[length(x)]                *)
+(* Only the bare variable is `a variable passed as an argument` (it shares *)
+(* the type of the parameter) and only length(x) of the bare variable      *)
+(* carries no evidence.  Every other form is an EXPRESSION, i.e. a scalar  *)
+(* value whatever it names: (x) and x "" are scalar uses of x, x[...] is   *)
+(* an array use of x, and the parameter that receives an expression is a   *)
+(* scalar, exactly as the one that receives a constant.                    *)
 (* Function 0 is the main body (BEGIN).  A node is <<f, i>>: parameter i   *)
 (* of function f, or global i when f = 0.                                  *)
 (*                                                                         *)
@@ -28,7 +39,11 @@
 (*     fresh arrays, missing scalar parameters are uninitialised -- on     *)
 (*     EVERY call, recursive ones included; the constant passed as         *)
 (*     argument number j is a string of j characters (so that a callee     *)
-(*     frame shifted by one place is visible); every use prints.           *)
+(*     frame shifted by one place is visible); every use prints.  An       *)
+(*     expression argument passes a COPY of a scalar value: (x) and x ""   *)
+(*     the value of x; x[length(x)] names an element that does not exist   *)
+(*     yet: the reference creates it (one more element in x, visible to    *)
+(*     everybody who shares x) and its value is the empty string.          *)
 (*  4. (C19a) errors that the parser COLLECTS before it reports one: the   *)
 (*     unused parenthesised comma lists (parser.go keeps them in a table   *)
 (*     without order and reports one at the end of the text); the report   *)
@@ -44,11 +59,24 @@ Sites(p)     == UNION {{<<f, s>> : s \in 1..Len(BodyOf(p, f))} : f \in FuncIds(p
 StmtAt(p, site) == BodyOf(p, site[1])[site[2]]
 IsUse(st)    == st.k \in {"s", "a", "len"}
 NodeOf(f, v) == IF v.sc = "L" THEN <<f, v.i>> ELSE <<0, v.i>>
+ArgForms     == {"v", "p", "e", "x"}
+IsConst(a)   == a.sc = "C"
+IsBare(a)    == a.sc # "C" /\ a.fm = "v"        \* the variable itself: may be an array
+IsExprOf(a)  == a.sc # "C" /\ a.fm # "v"        \* an expression that names a variable: a scalar value
+\* what an expression says about the variable it names
+FormEvidence(fm) == IF fm = "x" THEN "A" ELSE "S"   \* only asked for "p", "e", "x"
 
 CallSites(p) == {x \in Sites(p) : StmtAt(p, x).k = "call"}
 UseSites(p)  == {x \in Sites(p) : IsUse(StmtAt(p, x))}
 
 ParamNodes(p) == UNION {{<<f, j>> : j \in 1..p.funcs[f].np} : f \in 1..NumFuncs(p)}
+\* the (site, argument) pairs that are expressions naming a variable: arguments of calls and of length();
+\* argument number 0 is the operand of a use statement
+ExprArgs(p) ==
+  UNION {{<<x, j>> : j \in {q \in 1..Len(StmtAt(p, x).args) : IsExprOf(StmtAt(p, x).args[q])}} : x \in CallSites(p)}
+  \cup {<<x, 0>> : x \in {y \in UseSites(p) : StmtAt(p, y).k = "len" /\ IsExprOf(StmtAt(p, y).v)}}
+ArgAt(p, xa) == IF xa[2] = 0 THEN StmtAt(p, xa[1]).v ELSE StmtAt(p, xa[1]).args[xa[2]]
+
 GlobalIds(p) ==
      {StmtAt(p, x).v.i : x \in {y \in UseSites(p) : StmtAt(p, y).v.sc = "G"}}
   \cup UNION {{StmtAt(p, x).args[j].i : j \in {q \in 1..Len(StmtAt(p, x).args) : StmtAt(p, x).args[q].sc = "G"}}
@@ -65,21 +93,31 @@ WellFormed(p) ==
        IN /\ st.f \in 1..NumFuncs(p)
           /\ Len(st.args) <= p.funcs[st.f].np
           /\ \A j \in 1..Len(st.args) :
-               st.args[j].sc = "L" => (x[1] >= 1 /\ st.args[j].i \in 1..p.funcs[x[1]].np)
+               /\ st.args[j].sc \in {"L", "G", "C"} /\ st.args[j].fm \in ArgForms
+               /\ st.args[j].sc = "C" => st.args[j].fm = "v"
+               /\ st.args[j].sc = "L" => (x[1] >= 1 /\ st.args[j].i \in 1..p.funcs[x[1]].np)
   /\ \A x \in UseSites(p) :
-       StmtAt(p, x).v.sc = "L" => (x[1] >= 1 /\ StmtAt(p, x).v.i \in 1..p.funcs[x[1]].np)
+       LET st == StmtAt(p, x)
+       IN /\ st.v.sc = "L" => (x[1] >= 1 /\ st.v.i \in 1..p.funcs[x[1]].np)
+          \* only length() takes an operand that is not the bare variable
+          /\ st.v.fm \in ArgForms /\ (st.k # "len" => IsBare(st.v)) /\ (st.v.sc = "C" => st.v.fm = "v")
 
 \* --------------------------------------------------- 1. declarative typing
+\* direct uses; a parameter that receives anything but a bare variable (a constant or an expression) is a
+\* scalar; an expression (argument of a call or of length) is a use of the variable it names
 EvScalar(p) ==
      {NodeOf(x[1], StmtAt(p, x).v) : x \in {y \in UseSites(p) : StmtAt(p, y).k = "s"}}
-  \cup UNION {{<<StmtAt(p, x).f, j>> : j \in {q \in 1..Len(StmtAt(p, x).args) : StmtAt(p, x).args[q].sc = "C"}}
+  \cup UNION {{<<StmtAt(p, x).f, j>> : j \in {q \in 1..Len(StmtAt(p, x).args) : ~IsBare(StmtAt(p, x).args[q])}}
               : x \in CallSites(p)}
-EvArray(p) == {NodeOf(x[1], StmtAt(p, x).v) : x \in {y \in UseSites(p) : StmtAt(p, y).k = "a"}}
+  \cup {NodeOf(xa[1][1], ArgAt(p, xa)) : xa \in {y \in ExprArgs(p) : FormEvidence(ArgAt(p, y).fm) = "S"}}
+EvArray(p) ==
+     {NodeOf(x[1], StmtAt(p, x).v) : x \in {y \in UseSites(p) : StmtAt(p, y).k = "a"}}
+  \cup {NodeOf(xa[1][1], ArgAt(p, xa)) : xa \in {y \in ExprArgs(p) : FormEvidence(ArgAt(p, y).fm) = "A"}}
 
-\* an argument variable shares the type of the parameter it is passed to
+\* an argument variable (the bare variable, no other form) shares the type of the parameter it is passed to
 Edges(p) ==
   UNION {{{NodeOf(x[1], StmtAt(p, x).args[j]), <<StmtAt(p, x).f, j>>}
-          : j \in {q \in 1..Len(StmtAt(p, x).args) : StmtAt(p, x).args[q].sc # "C"}}
+          : j \in {q \in 1..Len(StmtAt(p, x).args) : IsBare(StmtAt(p, x).args[q])}}
          : x \in CallSites(p)}
 
 RECURSIVE Closure(_, _)
@@ -187,13 +225,19 @@ RRecord(rs, n, t, site) ==
      ELSE IF cur = "U" /\ t # "U" THEN [rs EXCEPT !.ty[n] = t, !.upd = @ + 1]
      ELSE rs
 
-\* one argument of a call to g (the cases of resolve.go:484-526)
+\* an expression is walked: the variable it names is used as its form says
+RWalkExpr(rs, f, arg, site) ==
+  IF IsExprOf(arg) THEN RRecord(rs, NodeOf(f, arg), FormEvidence(arg.fm), site) ELSE rs
+
+\* one argument of a call to g (the cases of resolve.go:484-526).  An argument that is not a bare variable
+\* (constant, parenthesised variable, expression, element) is a scalar: it cannot go to a parameter known to be
+\* an array, and is then walked like any expression; the forms differ only in what the walk records
 RArg(rs, f, g, j, arg, site) ==
   IF Failed(rs) THEN rs
-  ELSE IF arg.sc = "C"
+  ELSE IF ~IsBare(arg)
        THEN IF TyOf(rs, <<g, j>>) = "A"
-            THEN RFail(rs, [kind |-> "constarray", n |-> <<g, j>>, have |-> "S", want |-> "A", at |-> site, arg |-> j])
-            ELSE rs
+            THEN RFail(rs, [kind |-> IF IsConst(arg) THEN "constarray" ELSE "exprarray", n |-> <<g, j>>, have |-> "S", want |-> "A", at |-> site, arg |-> j])
+            ELSE RWalkExpr(rs, f, arg, site)
   ELSE LET n  == NodeOf(f, arg)
            vt == TyOf(rs, n)
            pt == TyOf(rs, <<g, j>>)
@@ -208,10 +252,11 @@ RArgs(rs, f, g, args, j, site) ==
 
 \* one statement of the body of f
 RVisitUse(rs, f, st, site) ==
-  LET n == NodeOf(f, st.v)
+  LET n == NodeOf(f, st.v)       \* (not evaluated for length(constant))
   IN CASE st.k = "s"   -> RRecord(rs, n, "S", site)
        [] st.k = "a"   -> RRecord(RRecord(rs, n, "U", site), n, "A", site)   \* v[length(v)] = 1
-       [] st.k = "len" -> RRecord(rs, n, "U", site)
+       [] st.k = "len" -> IF IsBare(st.v) THEN RRecord(rs, n, "U", site)    \* length(v): v may be either
+                          ELSE RWalkExpr(rs, f, st.v, site)                \* length(expression): walked
 RVisitCall(rs, f, st, site) == RArgs(rs, f, st.f, st.args, 1, site)
 
 CurFunc(rs) == rs.walk[rs.oi]
@@ -270,8 +315,10 @@ Sound(p, rs)  ==
      /\ \A x \in CallSites(p) :
           LET st == StmtAt(p, x)
           IN \A j \in 1..Len(st.args) :
-               IF st.args[j].sc = "C" THEN rs.ty[<<st.f, j>>] = "S"
+               IF ~IsBare(st.args[j]) THEN rs.ty[<<st.f, j>>] = "S"
                ELSE rs.ty[NodeOf(x[1], st.args[j])] = rs.ty[<<st.f, j>>]
+     \* the variable named by an expression has the type the expression uses it with
+     /\ \A xa \in ExprArgs(p) : rs.ty[NodeOf(xa[1][1], ArgAt(p, xa))] = FormEvidence(ArgAt(p, xa).fm)
 PassBound(p, rs) == rs.pass <= MaxChain(p) + 2
 
 \* ------------------------------------------------ 3. run-time behaviour
@@ -283,12 +330,23 @@ PassBound(p, rs) == rs.pass <= MaxChain(p) + 2
 \* value 0 (uninitialised) on every call; the constant passed as argument
 \* number j has j characters; calls made from inside a function are
 \* guarded by a depth limit (the generated AWK text contains that guard).
+\* Expressions (arguments of calls and of length()): (v) and v "" have the
+\* value of the scalar v; the constant operand of length() has one character;
+\* v[length(v)] is an element that v does not have (the elements of an array
+\* of n elements are numbered 0..n-1): referring to it creates it -- v has
+\* one element more from then on, for everybody who shares v -- and its
+\* value is the empty string.  Arguments are evaluated one after the other;
+\* the result does not depend on the direction, since the only effect of an
+\* evaluation is one more element in an array.
 MaxDepth == 2
 
 \* frame entry of a parameter: [ref |-> TRUE, c |-> cell] or [ref |-> FALSE, c |-> value]
 CellOf(f, fr, v)  == IF v.sc = "G" THEN v.i ELSE fr[v.i].c
 IsRefVar(f, fr, v) == v.sc = "G" \/ fr[v.i].ref
 GetVal(ms, f, fr, v) == IF IsRefVar(f, fr, v) THEN ms.mem[CellOf(f, fr, v)] ELSE fr[v.i].c
+\* the value of an expression (a constant is dealt with by the caller) and the memory after evaluating it
+ExprVal(ms, f, fr, a) == IF a.fm = "x" THEN 0 ELSE GetVal(ms, f, fr, a)
+ExprMem(ms, f, fr, a) == IF a.fm = "x" THEN [ms EXCEPT !.mem[CellOf(f, fr, a)] = @ + 1] ELSE ms
 
 RECURSIVE ExecBody(_, _, _, _, _, _), ExecCall(_, _, _, _, _, _, _)
 \* returns [fr, ms]
@@ -304,6 +362,12 @@ ExecBody(p, ty, f, fr, si, ms) ==
                      m3 == IF f # 0 THEN [m2 EXCEPT !.depth = @ - 1] ELSE m2
                  IN ExecBody(p, ty, f, fr, si + 1, m3)
        ELSE
+         IF st.k = "len" /\ ~IsBare(st.v)
+         THEN \* length(expression): prints the length of the value; the evaluation may add an element
+              LET val == IF IsConst(st.v) THEN 1 ELSE ExprVal(ms, f, fr, st.v)
+                  ms2 == IF IsConst(st.v) THEN ms ELSE ExprMem(ms, f, fr, st.v)
+              IN ExecBody(p, ty, f, fr, si + 1, [ms2 EXCEPT !.out = Append(@, [f |-> f, i |-> si, k |-> st.k, n |-> val])])
+         ELSE
          LET cur == GetVal(ms, f, fr, st.v)
              nv  == IF st.k = "len" THEN cur ELSE cur + 1
              ms2 == IF IsRefVar(f, fr, st.v) THEN [ms EXCEPT !.mem[CellOf(f, fr, st.v)] = nv] ELSE ms
@@ -319,9 +383,13 @@ BuildFrame(p, ty, f, fr, g, args, j, acc) ==     \* acc = [fr2, ms]
     LET isArr == ty[<<g, j>>] = "A"
     IN IF j <= Len(args)
        THEN LET a == args[j]
+                \* an array parameter receives a bare variable (Sound): the caller's array itself; a scalar
+                \* parameter a copy of the value of the variable, the constant or the expression
                 ent == IF isArr THEN [ref |-> TRUE, c |-> CellOf(f, fr, a)]
-                       ELSE [ref |-> FALSE, c |-> IF a.sc = "C" THEN j ELSE GetVal(acc.ms, f, fr, a)]
-            IN BuildFrame(p, ty, f, fr, g, args, j + 1, [acc EXCEPT !.fr = Append(@, ent)])
+                       ELSE [ref |-> FALSE, c |-> IF IsConst(a) THEN j ELSE IF IsBare(a) THEN GetVal(acc.ms, f, fr, a)
+                                                                            ELSE ExprVal(acc.ms, f, fr, a)]
+                ms2 == IF IsExprOf(a) THEN ExprMem(acc.ms, f, fr, a) ELSE acc.ms
+            IN BuildFrame(p, ty, f, fr, g, args, j + 1, [fr |-> Append(acc.fr, ent), ms |-> ms2])
        ELSE IF isArr
             THEN BuildFrame(p, ty, f, fr, g, args, j + 1,
                             [fr |-> Append(acc.fr, [ref |-> TRUE, c |-> Len(acc.ms.mem) + 1]),
